@@ -38,9 +38,12 @@ def run(ctx):
         if not CAL.exists(y, m, d):
             return 'skip'
         r = I.call('SolarFestival::from_ymd', [y, m, d])
+        via_day = t.m(cm.solar_day(y, m, d), 'get_festival')      # the date's own accessor must give the same answer
         if not r.some:
-            return None
+            return None if not via_day.some else 'SolarDay::get_festival finds %s where from_ymd finds nothing' % t.name(via_day.v)
         f = r.v
+        if not via_day.some or t.name(via_day.v) != t.name(f) or t.name(t.m(f, 'get_type')) != u'日期':
+            return 'SolarDay::get_festival / get_type disagree with from_ymd (%s)' % t.name(f)
         return (t.name(f), py(t.m(f, 'get_index')), cm.ymd_of(t.m(f, 'get_day')), py(t.m(f, 'get_start_year')))
 
     def sf_orc(x):
@@ -108,7 +111,9 @@ def run(ctx):
         n = cmx.n_of(t.m(ld, 'get_solar_day'))
         back = t.m(ld, 'get_festival')
         back_name = t.name(back.v) if back.some else None
-        return (t.name(f), t.name(t.m(f, 'get_type')), n, back_name)
+        st_ = t.m(f, 'get_solar_term')
+        term_name = t.name(st_.v) if st_.some else None
+        return (t.name(f), t.name(t.m(f, 'get_type')), n, back_name, term_name)
 
     def lf_orc(x):
         si, y, i = x
@@ -120,21 +125,21 @@ def run(ctx):
         if nm in LUNAR_FIXED:
             m, d = LUNAR_FIXED[nm]
             r = [r for r in recs if r['month'] == m][0]
-            n, ty = r['first'] + d - 1, u'日期'
+            n, ty, tn = r['first'] + d - 1, u'日期', None
         elif nm == u'清明节':
-            n, ty = terms[(y, 7)][0], u'节气'
+            n, ty, tn = terms[(y, 7)][0], u'节气', u'清明'
         elif nm == u'冬至节':
-            n, ty = terms[(y + 1, 0)][0], u'节气'
+            n, ty, tn = terms[(y + 1, 0)][0], u'节气', u'冬至'
         else:
             last = recs[-1]
-            n, ty = last['first'] + last['count'] - 1, u'除夕'
+            n, ty, tn = last['first'] + last['count'] - 1, u'除夕', None
         # its own lookup returns it, or the earlier-listed festival sharing the day
         same = []
         for j, nm2 in enumerate(LUNAR_ORDER):
             x2 = lf_day(si, y, j) if j != i else n
             if x2 == n:
                 same.append(nm2)
-        return (nm, ty, n, same[0])
+        return (nm, ty, n, same[0], tn)
 
     def lf_day(si, y, j):
         Y, months, terms = scen[si]
@@ -269,9 +274,12 @@ def run(ctx):
     def hol(x):
         y, m, d = x
         r = I.call('LegalHoliday::from_ymd', [y, m, d])
+        via_day = t.m(cm.solar_day(y, m, d), 'get_legal_holiday')      # the date's own accessor must give the same answer
         if not r.some:
-            return None
+            return None if not via_day.some else 'SolarDay::get_legal_holiday finds a record where from_ymd finds none'
         h = r.v
+        if not via_day.some or (cm.ymd_of(t.m(via_day.v, 'get_day')), t.name(via_day.v), t.m(via_day.v, 'is_work')) != (cm.ymd_of(t.m(h, 'get_day')), t.name(h), t.m(h, 'is_work')):
+            return 'SolarDay::get_legal_holiday disagrees with from_ymd'
         return (cm.ymd_of(t.m(h, 'get_day')), t.name(h), t.m(h, 'is_work'))
 
     def hol_orc(x):
